@@ -74,10 +74,30 @@ def seeded():
     return '\n'.join(rows)
 
 
+def perprop():
+    import importlib
+    import sys
+    sys.path[:0] = ['/verif', '/repo']
+    out = []
+    for f in sorted(glob.glob(V + '/evidence/C*.json')):
+        e = json.load(open(f))
+        pid = os.path.basename(f)[:-5]
+        c = e.get('coverage', {})
+        fns = sorted(k.split(':', 1)[1] for k in (c.get('functions_under_contract') or {}))
+        man = json.load(open(V + '/MANIFEST.json'))
+        chk = [x for x in man['checks'] if x['property_id'] == pid]
+        note = chk[0].get('level_note', '') if chk else ''
+        out.append('**%s** — functions executed from their AST: %s.' % (pid, ', '.join('`%s`' % x for x in fns)))
+        if note:
+            out.append('  ' + note)
+        out.append('')
+    return '\n'.join(out)
+
+
 def main():
     p = V + '/DESIGN.md'
     s = open(p).read()
-    for tag, fn in (('COVERAGE', coverage), ('FINDINGS', findings), ('SEEDED', seeded)):
+    for tag, fn in (('COVERAGE', coverage), ('FINDINGS', findings), ('SEEDED', seeded), ('PERPROP', perprop)):
         b, e = '<!-- BEGIN GENERATED %s -->' % tag, '<!-- END GENERATED %s -->' % tag
         if b in s:
             i, j = s.index(b) + len(b), s.index(e)
